@@ -65,6 +65,8 @@ def cases(tier, seed):
     for j in range(6 if tier == 'quick' else 150):
         out.append(dict(gen='history', calls=30, sub=core.subseed('C06h', seed, j), must=j < 3))
     out.append(dict(gen='threads', sub=core.subseed('C06t', seed), must=True))
+    for j, nbig in enumerate([32773] if tier == 'quick' else [32773, 65537, 100000]):
+        out.append(dict(gen='bigbatch', n=nbig, sub=core.subseed('C06b', seed, j), must=True))
     n_rand = 30 if tier == 'quick' else 3000
     rs = np.random.default_rng(core.subseed('C06r', seed))
     for j in range(n_rand):
@@ -127,6 +129,8 @@ def run_case(case):
         return _history(t, case)
     if case['gen'] == 'threads':
         return _threads(t, case)
+    if case['gen'] == 'bigbatch':
+        return _bigbatch(t, case)
     rng = np.random.default_rng(case['sub'])
     blocks, keys = _build(case, rng)
     dt = np.dtype(case['dtype'])
@@ -196,6 +200,36 @@ def run_case(case):
     t.check((arr_b.tobytes(), arr_k.tobytes()) == snap, 'input_modified', lambda: dict(case=case))
     sig = '|'.join(str(case.get(k)) for k in ('kf', 'dir', 'shape', 'dtype', 'struct', 'n', 'sub'))
     return t.result(sig=sig, sample=dict(case=case, stop_points=npass * 160, blocks=n, comparisons=t.checks))
+
+
+def _bigbatch(t, case):
+    """Tens of thousands of blocks in one call, judged on rows at the start, around the multiples of 2^15 and at the end."""
+    import scared
+    rng = np.random.default_rng(case['sub'])
+    n = case['n']
+    kf = int(rng.choice([8, 16, 24]))
+    blocks = rng.integers(0, 256, (n, 8)).astype('uint8')
+    key = rng.integers(0, 256, kf).astype('uint8')
+    rows = sorted(set([0, 1, n - 1, n - 2] + [m + d for m in range(32768, n, 32768) for d in (-1, 0, 1) if 0 <= m + d < n] + rng.integers(0, n, 4).tolist()))
+    npass = 1 if kf == 8 else 3
+    for mode in ('encrypt', 'decrypt'):
+        fn = getattr(scared.des, mode)
+        for spec in (None, (int(rng.integers(npass)), int(rng.integers(16)), int(rng.integers(10)))):
+            got = np.asarray(fn(blocks, key) if spec is None else fn(blocks, key, at_des=spec[0], at_round=spec[1], after_step=spec[2]))
+            t.count('stop_points')
+            bad = None
+            ok = got.ndim == 2 and got.shape[0] == n
+            if ok:
+                for r in rows:
+                    tr = D.tdes_trace(blocks[r].tolist(), key.tolist(), mode)
+                    exp = tr[-1][2] if spec is None else D.stop_value(tr[spec[0]][0], tr[spec[0]][1], tr[spec[0]][2], spec[1], spec[2])
+                    t.count('blocks')
+                    if bad is None and got[r].tolist() != list(exp):
+                        bad = dict(row=r, got=got[r].tolist(), expected=list(exp))
+            t.check(ok and bad is None, 'big_batch_row_differs', lambda: dict(n=n, kf=kf, mode=mode, stop=spec, shape=got.shape, first_bad=bad))
+    for c in ('roundtrips', 'inputs_unchanged', 'templates_checked', 'primitive_values', 'history_calls'):
+        t.count(c, 0)
+    return t.result(sig=f"bigbatch|{n}|{kf}", sample=dict(case=case, rows_checked=len(rows)))
 
 
 def _threads(t, case):
